@@ -486,6 +486,38 @@ func wide(f func(Cfg) bool) {
 			}
 		}
 	}
+	// many stages that each include a pipeline of their own (a monorepo's `all` pipeline: one build -> test
+	// pipeline per service), independent and as a fan-out behind one root
+	for _, n := range []int{17} {
+		for _, shape := range []string{"independent", "fan-out"} {
+			for _, out := range []string{"ok", "alternate"} {
+				nm := make([]string, n)
+				deps := make([][]int, n)
+				for i := range nm {
+					nm[i] = fmt.Sprintf("s%02d", i)
+					if shape == "fan-out" && i > 0 {
+						deps[i] = []int{0}
+					}
+				}
+				g := mkGraph(deps, make([]int, n), nm)
+				for i := 0; i < n; i++ {
+					if shape == "fan-out" && i == 0 {
+						continue
+					}
+					iouts := []int{0, 0}
+					if out == "alternate" {
+						iouts = []int{0, i % 4}
+					}
+					ig := mkGraph([][]int{nil, {0}}, iouts, []string{fmt.Sprintf("b%02d", i), fmt.Sprintf("t%02d", i)})
+					g.Stages[i].Inner = &ig
+					g.Stages[i].Allow = out == "alternate" && i%2 == 0
+				}
+				if f(Cfg{G: g, NoPark: true}) {
+					return
+				}
+			}
+		}
+	}
 }
 
 // cancelNested: outer DAG on <=2 stages, one of them a nested pipeline of <=2 stages; one inner stage has a
